@@ -99,4 +99,54 @@ theorem sortStrings_sorted (l : List String) (hnd : (l.map bytesOf).Nodup) :
     · exfalso; apply hnd'.1; rw [h]; exact List.mem_map_of_mem hb
     · rw [h] at hle; cases hle
 
+theorem map_toNat_inj : ∀ (l1 l2 : List UInt8), l1.map (·.toNat) = l2.map (·.toNat) → l1 = l2
+  | [], [], _ => rfl
+  | [], _ :: _, h => by simp at h
+  | _ :: _, [], h => by simp at h
+  | x :: xs, y :: ys, h => by
+    simp only [List.map_cons, List.cons.injEq] at h
+    rw [UInt8.toNat_inj.mp h.1, map_toNat_inj xs ys h.2]
+
+/-- two strings with the same UTF-8 bytes are the same string -/
+theorem bytesOf_inj {a b : String} (h : bytesOf a = bytesOf b) : a = b := by
+  unfold bytesOf at h
+  have h1 := map_toNat_inj _ _ h
+  have h2 : a.toUTF8.data = b.toUTF8.data := Array.toList_inj.mp h1
+  have h3 : a.toUTF8 = b.toUTF8 := by
+    generalize a.toUTF8 = x at h2
+    generalize b.toUTF8 = y at h2
+    cases x; cases y
+    simp at h2; simp [h2]
+  exact String.toByteArray_inj.mp h3
+
+theorem strLe_antisymm (a b : String) (h1 : strLe a b = true) (h2 : strLe b a = true) : a = b := by
+  unfold strLe at h1 h2
+  simp only [Bool.not_eq_true'] at h1 h2
+  rcases lexLt_total (bytesOf a) (bytesOf b) with h | h | h
+  · rw [h2] at h; cases h
+  · exact bytesOf_inj h
+  · rw [h1] at h; cases h
+
+/-- a list sorted by an antisymmetric order is determined by its multiset of elements -/
+theorem perm_sorted_eq : ∀ (l1 l2 : List String), l1.Perm l2 →
+    l1.Pairwise (fun a b => strLe a b = true) → l2.Pairwise (fun a b => strLe a b = true) → l1 = l2
+  | [], l2, hp, _, _ => by simpa using hp.symm.eq_nil
+  | a :: r1, [], hp, _, _ => by simpa using hp.eq_nil
+  | a :: r1, b :: r2, hp, h1, h2 => by
+    rw [List.pairwise_cons] at h1 h2
+    have hab : a = b := by
+      have ha : a ∈ b :: r2 := hp.mem_iff.mp (by simp)
+      have hb : b ∈ a :: r1 := hp.mem_iff.mpr (by simp)
+      rcases List.mem_cons.mp ha with e | ha'
+      · exact e
+      · rcases List.mem_cons.mp hb with e | hb'
+        · exact e.symm
+        · exact strLe_antisymm a b (h1.1 b hb') (h2.1 a ha')
+    subst hab
+    rw [perm_sorted_eq r1 r2 (List.Perm.cons_inv hp) h1.2 h2.2]
+
+/-- **sorting forgets the input order** -/
+theorem sortStrings_perm_eq {l l' : List String} (h : l.Perm l') : sortStrings l = sortStrings l' :=
+  perm_sorted_eq _ _ ((sortStrings_perm l).trans (h.trans (sortStrings_perm l').symm)) (sortStrings_pairwise l) (sortStrings_pairwise l')
+
 end Sylvia.Gen
